@@ -16,11 +16,15 @@ def main(repo):
     import periodictable as pt
     from periodictable import (core, mass, density, nsf, xsf, covalent_radius, crystal_structure,
                                magnetic_ff, activation, formulas)
-    T = core.PeriodicTable("ptv-nested")
-    # nsf first, before any public touch: the order must not matter
-    for m in (mass, density, nsf, xsf, covalent_radius, crystal_structure, magnetic_ff, activation):
-        m.init(T)
-    xsf.init_spectral_lines(T)
+    def new_table(name):
+        t = core.PeriodicTable(name)
+        # nsf first, before any public touch: the order must not matter
+        for m in (mass, density, nsf, xsf, covalent_radius, crystal_structure, magnetic_ff, activation):
+            m.init(t)
+        xsf.init_spectral_lines(t)
+        return t
+    T = new_table("ptv-nested")
+    T2 = new_table("ptv-nested-2")
     attrs = ["neutron", "xray", "crystal_structure", "magnetic_ff", "neutron_activation", "covalent_radius",
              "covalent_radius_uncertainty", "K_alpha", "K_beta1", "nuclear_spin"]
 
@@ -34,6 +38,9 @@ def main(repo):
             if id(v) in seen:
                 return
             seen[id(v)] = path
+            if hasattr(v, "__dict__") and not callable(v):
+                # two distinct objects may still share one attribute dictionary
+                seen.setdefault(id(v.__dict__), path + ".__dict__")
         if isinstance(v, dict):
             for k, x in v.items():
                 reach(x, seen, path + "[%r]" % (k,), depth + 1)
@@ -62,8 +69,28 @@ def main(repo):
                     reach(v, seen, "%r.%s" % (x, a))
         return seen
 
-    A, B = collect(pt.elements), collect(T)
+    A, B, C = collect(pt.elements), collect(T), collect(T2)
     shared = sorted("%s == %s" % (A[i], B[i]) for i in set(A) & set(B))
+    shared += sorted("%s == %s (second private table)" % (A[i], C[i]) for i in (set(A) & set(C)) - set(B))
+    shared += sorted("%s == %s (two private tables)" % (B[i], C[i]) for i in (set(B) & set(C)) - set(A))
+    # a freshly initialised private table - the first one and the second one - serves the public values
+    from ptv.state_hist import _dig
+    differs = []
+    for name, t in (("first private table", T), ("second private table", T2)):
+        for el in pt.elements:
+            pairs = [(el, t[el.number])] + [(el[i], t[el.number][i]) for i in el.isotopes if i in t[el.number].isotopes]
+            for x, y in pairs:
+                for a in attrs:
+                    try:
+                        vx = _dig(getattr(x, a))
+                    except Exception as e:  # noqa
+                        vx = "raises " + type(e).__name__
+                    try:
+                        vy = _dig(getattr(y, a))
+                    except Exception as e:  # noqa
+                        vy = "raises " + type(e).__name__
+                    if vx != vy:
+                        differs.append("%s: %r.%s differs from the public value" % (name, y, a))
     foreign = []
     cases = [
         ("formula", lambda: formulas.formula("Fe2O3 + 3H2O", table=T)),
@@ -85,7 +112,8 @@ def main(repo):
         for a in f.atoms:
             if core.change_table(a, T) is not a:
                 foreign.append("%s(..., table=T) contains %r, which is not an atom of T" % (name, a))
-    print(json.dumps(dict(shared=shared, foreign=sorted(set(foreign)), objects=len(A))))
+    print(json.dumps(dict(shared=shared, foreign=sorted(set(foreign)), objects=len(A), differs=differs[:40],
+                          ndiffers=len(differs))))
 
 
 if __name__ == "__main__":
